@@ -829,7 +829,9 @@ def get_unique_label(label: str, labels: dict) -> tp.Tuple[str, dict]:
 
 
 def replace_in_expr(expr: Expr, replacements: dict):
-    expr = expr.subs(replacements, simultaneous=True)
+    # exact structural replacement of the operands: `subs` would also rewrite e.g. `u` to `Pow**(-1)` when `1/u` is
+    # replaced by the symbol `Pow`
+    expr = expr.xreplace(replacements)
     for arg_old in replacements:
         if expr.count(arg_old):
             expr = expr.replace(arg_old, replacements[arg_old])
